@@ -104,4 +104,57 @@ def fibImpl (cmp : K → K → Int) (eqV : V → V → Bool) : Impl K V where
   step := Fib.step cmp eqV
   merge := fun h hh => .ok (h.mergeWith cmp hh)
 
+/-! ## a family whose heaps were built with DIFFERENT comparators
+
+`NewBinomial(cmp, eqV)` / `NewFibonacci(cmp, eqV)` store the comparator in the heap; `h.Merge(hh)` only asserts the
+implementation type of `hh`, so heaps built with different comparators can be merged: the receiver's code runs with
+the receiver's comparator on the operand's trees.  `cmps r` is the comparator heap `r` of the family was built with. -/
+
+/-- a mergeable heap implementation as a function of the comparator its constructor is given -/
+structure ImplC (K V : Type) where
+  σ : Type
+  init : σ
+  step : (K → K → Int) → σ → Op K V → Outcome (σ × Out K V)
+  /-- `h.Merge(hh)` for two different heaps, run with the RECEIVER's comparator -/
+  merge : (K → K → Int) → σ → σ → Outcome (σ × σ)
+
+/-- the family in which every heap is built with the same comparator -/
+def ImplC.at (I : ImplC K V) (cmp : K → K → Int) : Impl K V where
+  σ := I.σ
+  init := I.init
+  step := I.step cmp
+  merge := I.merge cmp
+
+def ImplC.mstep (I : ImplC K V) (cmps : Nat → K → K → Int) (regs : Nat → I.σ) :
+    MOp K V → Outcome ((Nat → I.σ) × Out K V)
+  | .on r op => obind (I.step (cmps r) (regs r) op) fun p => .ok (update regs r p.1, p.2)
+  | .merge d s =>
+    if d = s then .ok (regs, .unit)
+    else obind (I.merge (cmps d) (regs d) (regs s)) fun p => .ok (update (update regs d p.1) s p.2, .unit)
+  | .mergeOther _ => .ok (regs, .unit)
+
+def ImplC.runFrom (I : ImplC K V) (cmps : Nat → K → K → Int) : (Nat → I.σ) → List (MOp K V) → List (Outcome (Out K V))
+  | _, [] => []
+  | regs, op :: ops =>
+    match I.mstep cmps regs op with
+    | .ok (regs', o) => .ok o :: I.runFrom cmps regs' ops
+    | .panic => [.panic]
+    | .diverge => [.diverge]
+
+/-- history → trace on a family of freshly created heaps, heap `r` built with comparator `cmps r` -/
+def ImplC.run (I : ImplC K V) (cmps : Nat → K → K → Int) (ops : List (MOp K V)) : List (Outcome (Out K V)) :=
+  I.runFrom cmps (fun _ => I.init) ops
+
+def binomialImplC (eqV : V → V → Bool) : ImplC K V where
+  σ := Binomial K V
+  init := Binomial.new
+  step := fun cmp => Binomial.step cmp eqV
+  merge := fun cmp h hh => .ok (h.mergeWith cmp hh)
+
+def fibImplC (eqV : V → V → Bool) : ImplC K V where
+  σ := Fib K V
+  init := Fib.new
+  step := fun cmp => Fib.step cmp eqV
+  merge := fun cmp h hh => .ok (h.mergeWith cmp hh)
+
 end AlgoVerif.C04
